@@ -51,6 +51,7 @@ def run(chk):
         census(chk, facts, cfg)
         from .sites import run_sites
         run_sites(chk, facts, "C02-d", cfg)
+        run_sites(chk, facts, "C02-i", cfg)
         if cfg == "union":
             from .sites import run_engine_fixture
             run_engine_fixture(chk)
